@@ -65,6 +65,7 @@ type storeSpec struct {
 	typesMod string
 	keepMod  string          // generated keeper file (for go_Params_Validate)
 	valCtor  string          // prefix of the value constructors
+	section  bool            // the accessors convert between address bytes and bech32 strings: the two conversions are Section variables
 	checked  map[string]bool // struct types whose MustMarshal can panic (hand-written marshal_check_<T> in model/StoreCodecPrims.v)
 }
 
@@ -84,6 +85,19 @@ var storeSpecs = []storeSpec{
 			"HasBeaconStorageLimit", "GetBeaconStorageLimit", "SetBeaconStorageLimit",
 			"SetBeaconTimestamp", "IsBeaconTimestampRecordedByID", "GetBeaconTimestampByID", "IterateBeaconTimestamps", "IterateBeaconTimestampsReverse",
 			"GetAllBeaconTimestamps", "deleteBeaconTimestamp"}},
+}
+
+func init() {
+	storeSpecs = append(storeSpecs, storeSpec{module: "enterprise", files: []string{"params.go", "purchase.go", "whitelist.go", "locked.go"}, typesMod: "GeneratedEnterpriseTypes", keepMod: "GeneratedEnterpriseKeeper", valCtor: "EV", section: true,
+		want: []string{"GetParams", "SetParams", "GetParamDenom", "GetParamMinAccepts", "GetParamDecisionLimit", "GetParamEntSigners",
+			"GetHighestPurchaseOrderID", "SetHighestPurchaseOrderID",
+			"AddPoToRaisedQueue", "PurchaseOrderIsInRaisedQueue", "RemovePurchaseOrderFromRaisedQueue", "IterateRaisedQueue", "GetAllRaisedPurchaseOrders",
+			"AddPoToAcceptedQueue", "PurchaseOrderIsInAcceptedQueue", "RemovePurchaseOrderFromAcceptedQueue", "IterateAcceptedQueue", "GetAllAcceptedPurchaseOrders",
+			"PurchaseOrderExists", "GetPurchaseOrder", "IteratePurchaseOrders", "GetAllPurchaseOrders", "SetPurchaseOrder",
+			"AddressIsWhitelisted", "AddAddressToWhitelist", "RemoveAddressFromWhitelist", "IterateWhitelist", "GetAllWhitelistedAddresses",
+			"GetTotalLockedUnd", "SetTotalLockedUnd", "GetTotalSpentEFUND", "SetTotalSpentEFUND",
+			"AccountHasSpentEFUND", "GetSpentEFUNDForAccount", "SetSpentEFUNDForAccount", "GetSpentEFUNDAmountForAccount", "GetAllSpentEFUNDAccountsIterator", "GetAllSpentEFUNDs",
+			"AccountHasLockedUnd", "GetLockedUndForAccount", "IsLocked", "SetLockedUndForAccount", "GetLockedUndAmountForAccount", "GetAllLockedUndAccountsIterator", "GetAllLockedUnds"}})
 }
 
 type stSig struct {
@@ -109,9 +123,26 @@ type stTrans struct {
 	inClosure    bool
 	closureState []string
 	inDecode     bool
+	namedAll     []string
 	usedCb       bool
 	decodeOuts   []string
 }
+
+func isPkgIdent(e ast.Expr) bool {
+	id, ok := e.(*ast.Ident)
+	return ok && (id.Name == "k" || id.Name == "types" || id.Name == "store" || id.Name == "sdk" || id.Name == "sdkerrors")
+}
+
+func (t *stTrans) namedNonErr() []string {
+	var o []string
+	for _, n := range t.namedAll {
+		if t.env[n] != skErr {
+			o = append(o, n)
+		}
+	}
+	return o
+}
+func (t *stTrans) outerSig() *stSig { return &t.sig }
 
 func (t *stTrans) fail(f string, a ...interface{}) { t.errs = append(t.errs, fmt.Sprintf(f, a...)) }
 func (t *stTrans) tmp() string                     { t.fresh++; return fmt.Sprintf("t%d_", t.fresh) }
@@ -228,6 +259,8 @@ func fieldKind(g gtype) stKind {
 		return skStr
 	case tAddrStr:
 		return skAddrS
+	case tSigners:
+		return skList(skAddrS)
 	}
 	if isStruct(g) {
 		return skStruct(structName(g))
@@ -371,6 +404,28 @@ func (t *stTrans) expr(e ast.Expr) (pre []stBind, val string, k stKind) {
 		t.fail("composite literal %s", tn)
 		return nil, "?", "?"
 	case *ast.CallExpr:
+		if n := exprName(x.Fun); len(x.Args) == 0 {
+			switch {
+			case strings.HasSuffix(n, ".Value"):
+				y := t.tmp()
+				return []stBind{{y, "(" + t.spec.module + "_unmarshal_bytes (Some val_))"}}, y, skBytes
+			case strings.HasSuffix(n, ".Key"):
+				return nil, "key_", skBytes
+			}
+			if sel, ok := x.Fun.(*ast.SelectorExpr); ok && !isPkgIdent(sel.X) {
+				p, v, kk := t.expr(sel.X)
+				switch {
+				case kk == skBytes && sel.Sel.Name == "Empty":
+					return p, "(Addr_bytes_Empty " + v + ")", skBool
+				case kk == skBytes && sel.Sel.Name == "String":
+					return p, "(store_addr_string " + v + ")", skAddrS
+				case kk == skCoin && sel.Sel.Name == "IsNegative":
+					return p, "(Coin_IsNegative " + v + ")", skBool
+				case kk == skCoin && sel.Sel.Name == "IsPositive":
+					return p, "(Coin_IsPositive " + v + ")", skBool
+				}
+			}
+		}
 		return t.call(x)
 	}
 	t.fail("expression %T", e)
@@ -424,15 +479,15 @@ func (t *stTrans) call(c *ast.CallExpr) (pre []stBind, val string, k stKind) {
 		}
 		x := t.tmp()
 		return append(p, stBind{x, "(" + t.spec.module + "_marshal_" + ctor + " " + v + ")"}), x, skVal
+	case n == "types.ValidPurchaseOrderStatus":
+		p, v, _ := t.expr(c.Args[0])
+		x := t.tmp()
+		return append(p, stBind{x, "(go_ValidPurchaseOrderStatus " + v + ")"}), x, skBool
 	case strings.HasPrefix(n, "types."):
 		fn := strings.TrimPrefix(n, "types.")
 		rk, _ := keyFnResult(fn)
 		var args []string
 		for _, a := range c.Args {
-			if id := exprName(a); strings.HasSuffix(id, ".Key()") {
-				args = append(args, "key_")
-				continue
-			}
 			p, v := t.keyArg(a)
 			pre = append(pre, p...)
 			args = append(args, v)
@@ -536,6 +591,9 @@ func (t *stTrans) retStmt(r *ast.ReturnStmt) string {
 		last := results[len(results)-1]
 		if exprName(last) != "nil" {
 			if ce, ok := last.(*ast.CallExpr); ok && (exprName(ce.Fun) == "sdkerrors.Wrap" || exprName(ce.Fun) == "sdkerrors.Wrapf") {
+				if strings.HasPrefix(exprName(ce.Args[0]), "sdkerrors.") {
+					return "Err STORE_ERR_SDK"
+				}
 				return "Err STORE_ERR"
 			}
 			t.fail("return of error %s", exprName(last))
@@ -555,7 +613,7 @@ func (t *stTrans) retStmt(r *ast.ReturnStmt) string {
 	for i, e := range results {
 		p, v, k := t.expr(e)
 		pre = append(pre, p...)
-		if i < len(t.sig.results) && t.sig.results[i] == skStr && (k == skDenom || k == skAddrS) {
+		if i < len(t.sig.results) && t.sig.results[i] == skStr && (k == skDenom || k == skAddrS || k == skList(skAddrS)) {
 			t.sig.results[i] = k // a Go string holding a denomination / an address
 		}
 		if i < len(t.sig.results) && k != t.sig.results[i] && k != "?" {
@@ -637,7 +695,15 @@ func (t *stTrans) assign(x *ast.AssignStmt, rest []ast.Stmt) string {
 		}
 		// x = append(x, e)
 		if c, ok := x.Rhs[0].(*ast.CallExpr); ok && exprName(c.Fun) == "append" && len(c.Args) == 2 && exprName(c.Args[0]) == lhs {
-			p, v, _ := t.expr(c.Args[1])
+			p, v, ek := t.expr(c.Args[1])
+			if t.env[lhs] == skList(skStr) && ek == skAddrS {
+				t.env[lhs] = skList(skAddrS) // a []string of bech32 addresses
+				for i, n := range t.namedNonErr() {
+					if n == lhs && i < len(t.outerSig().results) {
+						t.outerSig().results[i] = skList(skAddrS)
+					}
+				}
+			}
 			return stWrap(p, "let "+lhs+" := ("+lhs+" ++ ["+v+"]) in\n"+t.stmts(rest))
 		}
 		p, v, k := t.expr(x.Rhs[0])
@@ -794,9 +860,21 @@ func (t *stTrans) ifStmt(x *ast.IfStmt, rest []ast.Stmt) string {
 		t.fail("if with init")
 		return "?"
 	}
-	if x.Else != nil || !endsInReturn(x.Body) {
-		t.fail("if whose then-branch does not return / has else")
+	if x.Else != nil {
+		t.fail("if with else")
 		return "?"
+	}
+	if !endsInReturn(x.Body) {
+		// fall-through: the continuation runs after the then-branch as well
+		p, v, k := t.expr(x.Cond)
+		if k != skBool {
+			t.fail("condition of kind %s", k)
+			return "?"
+		}
+		save := t.snapshot()
+		thenT := t.stmts(append(append([]ast.Stmt{}, x.Body.List...), rest...))
+		t.restore(save)
+		return stWrap(p, "if "+v+" then (\n"+thenT+")\nelse (\n"+t.stmts(rest)+")")
 	}
 	// if bz == nil { .. }
 	if be, ok := x.Cond.(*ast.BinaryExpr); ok && be.Op == token.EQL && exprName(be.Y) == "nil" {
@@ -940,6 +1018,11 @@ func (t *stTrans) stmtsDecode(list []ast.Stmt) string {
 		if len(x.Rhs) == 1 {
 			if c, ok := x.Rhs[0].(*ast.CallExpr); ok {
 				n := exprName(c.Fun)
+				if strings.HasSuffix(n, ".Value") && len(c.Args) == 0 && len(x.Lhs) == 1 {
+					p, v, k := t.expr(c)
+					t.env[exprName(x.Lhs[0])] = k
+					return stWrap(p, "let "+exprName(x.Lhs[0])+" := "+v+" in\n"+t.stmtsDecode(rest))
+				}
 				if strings.HasSuffix(n, ".cdc.Unmarshal") && len(rest) > 0 {
 					if ifs, ok := rest[0].(*ast.IfStmt); ok && len(ifs.Body.List) == 1 {
 						if es, ok := ifs.Body.List[0].(*ast.ExprStmt); ok && strings.HasPrefix(exprName(es.X), "panic(") {
@@ -1115,6 +1198,7 @@ func (t *stTrans) sigOf(fd *ast.FuncDecl) stSig {
 				sig.hasErr = true
 				for _, nm := range f.Names {
 					t.named = append(t.named, nm.Name)
+					t.namedAll = append(t.namedAll, nm.Name)
 					t.env[nm.Name] = skErr
 				}
 				continue
@@ -1132,6 +1216,7 @@ func (t *stTrans) sigOf(fd *ast.FuncDecl) stSig {
 			for _, nm := range f.Names {
 				sig.results = append(sig.results, k)
 				t.named = append(t.named, nm.Name)
+				t.namedAll = append(t.namedAll, nm.Name)
 				t.env[nm.Name] = k
 			}
 		}
@@ -1322,6 +1407,9 @@ func writeStore(repo string, spec storeSpec, out string) {
 	}
 	sb.WriteString("Definition " + spec.module + "_marshal_bytes (b : list N) : outcome " + spec.module + "_val := Ok (" + spec.valCtor + "_bytes b).\n")
 	sb.WriteString("Definition " + spec.module + "_unmarshal_bytes (o : option " + spec.module + "_val) : outcome (list N) :=\n  match o with Some (" + spec.valCtor + "_bytes b) => Ok b | None => Ok [] | Some _ => Panic OKV_PANIC_UNMARSHAL end.\n\n")
+	if spec.section {
+		sb.WriteString("(* sdk.AccAddressFromBech32 of a stored owner string / AccAddress.String(): the conversions between the abstract\n   address of the records and its bytes are parameters of the accessors *)\nSection Accessors.\nVariable store_bech32_bytes : go_addr -> outcome (list N).\nVariable store_addr_string : list N -> go_addr.\n\n")
+	}
 	fns := map[string]stSig{}
 	var done, failed []string
 	for _, w := range spec.want {
@@ -1340,6 +1428,9 @@ func writeStore(repo string, spec storeSpec, out string) {
 		fns[w] = sig
 		done = append(done, w)
 		sb.WriteString(def + "\n")
+	}
+	if spec.section {
+		sb.WriteString("End Accessors.\n\n")
 	}
 	q := func(xs []string) string {
 		var o []string
